@@ -1,16 +1,17 @@
 SPECIFICATION Spec
 CONSTANTS
   Canon <- MCCanon3
-  Fork <- MCNoFork
+  Fork <- MCFork
   Info <- MCInfo
   Genesis = "g"
   Batch = 1
   Confirmations = 1
   CountMerges = TRUE
-  MaxFaults = 1
+  MaxFaults = 2
   MaxCnt = 4
+  HCAhead = FALSE
   Concurrent = FALSE
-  MaxLag = 0
+  MaxLag = 1
 CONSTRAINT StateConstraint
 INVARIANTS TypeOK RoundMapCanonical LFBCanonical RestartPossible LFBPersisted OnlyFinalizedStored CountAtLeast CountMultiple
   ServeByRoundSound ConfirmationSound
